@@ -283,7 +283,16 @@ def vec_setitem(ex, st, o, v, i, val, node):
             if v.idx is not None and iv.idx is not None:
                 same_index(ex, st, v, iv, node)
             if isinstance(val0, Vec):
-                raise Unsupported("masked assignment of a vector")
+                if v.kind != "array":
+                    raise Unsupported("masked assignment of a vector into a Series (aligned by label)")
+                # ndarray[mask] = values: values[r] goes to the r-th True position (positional, the values' own index is ignored)
+                used(ex, "array[mask] = values writes values[r] to the r-th True position")
+                m, _sel = compress(ex, st, iv.n, iv.at)
+                rank = compress.last_rank
+                ex.oblig("len_eq", "L%s" % getattr(node, "lineno", "?"), st, to_z3(val0.n) == to_z3(m))
+                st.put(o, v.with_(at=lambda k, v=v, val0=val0, iv=iv, rank=rank:
+                                  merge_val(_b(iv.at(k)), coerce_elem(v, val0.at(rank(to_z3(k)))), v.at(k))))
+                return [st]
             cv = coerce_elem(v, val0)
             st.put(o, v.with_(at=lambda k: merge_val(_b(iv.at(k)), cv, v.at(k))))
             return [st]
@@ -1091,6 +1100,35 @@ def np_zeros_like(ex, st, args, kwargs, node):
     else:
         raise Unsupported("np.zeros_like of this element type")
     return st.alloc(Vec(v.n, lambda k, c=c: c, elt=elt, kind="array"))
+
+
+@builtin("numpy.mod")
+def np_mod(ex, st, args, kwargs, node):
+    a, b = st.get(args[0]), st.get(args[1])
+    if len(args) != 2 or kwargs or not (isinstance(b, int) and b == 1):
+        raise Unsupported("np.mod(x, y) other than y == 1")
+    used(ex, "np.mod(x, 1) = x - floor(x)")
+
+    def f(x):
+        if isinstance(x, NF):
+            return NF(x.null, f(x.val))
+        x = to_real(x)
+        return x - z3.ToReal(z3.ToInt(x))
+    if isinstance(a, Vec):
+        return st.alloc(Vec(a.n, lambda k: f(a.at(k)), idx=a.idx, kind=a.kind))
+    return f(a)
+
+
+@vm("isin")
+def v_isin(ex, st, o, args, kwargs, node):
+    v = st.get(o)
+    items = st.get(args[0])
+    if isinstance(items, ListV):
+        items = tuple(st.get(x) for x in items.items)
+    if not isinstance(items, tuple) or len(args) != 1 or kwargs:
+        raise Unsupported("isin: a literal tuple/list of values only")
+    used(ex, "Series.isin(values) = element-wise membership")
+    return st.alloc(Vec(v.n, lambda k, items=items: contains(ex, st, items, v.at(k)), idx=v.idx, kind=v.kind))
 
 
 @vm("take")
